@@ -376,8 +376,11 @@ pub fn arb_case(text: bool) -> BoxedStrategy<Case15> {
 
 fn build(case: &Case15) -> (Vec<String>, Vec<u8>) {
     let mut args = Vec::new();
+    // the members are called c0 c1 .. or, half of the time, by names with multi-byte characters
+    // (the text in front of `= title` is then longer in bytes than in characters)
+    let pre = ["c", "c", "\u{e9}", "\u{65e5}\u{672c}"][case.rows.len() % 4];
     for (i, n) in case.names.iter().enumerate() {
-        args.push(format!("--select=.c{} = {}", i, n));
+        args.push(format!("--select=.{}{} = {}", pre, i, n));
     }
     if case.rowsep != "\n" {
         args.push(format!("--row-seperator={}", case.rowsep));
@@ -417,7 +420,7 @@ fn build(case: &Case15) -> (Vec<String>, Vec<u8>) {
     }
     let mut input = String::new();
     for r in &case.rows {
-        let members: Vec<String> = r.iter().enumerate().filter_map(|(i, v)| v.as_ref().map(|g| format!("\"c{}\":{}", i, canonical(g)))).collect();
+        let members: Vec<String> = r.iter().enumerate().filter_map(|(i, v)| v.as_ref().map(|g| format!("\"{}{}\":{}", pre, i, canonical(g)))).collect();
         input.push_str(&format!("{{{}}}\n", members.join(",")));
     }
     (args, input.into_bytes())
